@@ -98,6 +98,14 @@ def run_case(ctx, kind_, idx):
             if via_weaver:
                 wv = Weaver(xin, yin).recreate_from_average(n_arg, rfa_class=R.cls(strat), **kw)
                 xs, ys = wv.get()
+            elif rng.integers(0, 4) == 0:
+                obj = R.cls(strat)(xin, yin, n_arg, **kw)
+                xs0, ys0 = obj.rfa()
+                if isinstance(xs0, np.ndarray) and isinstance(ys0, np.ndarray):
+                    xs0 += 0.5                     # caller modifies what it was given ...
+                    ys0 *= 2.0
+                xs, ys = obj.rfa()                 # ... a second request must still return the exact grid
+                meta["second_call_on_same_object"] = True
             else:
                 xs, ys = R.cls(strat)(xin, yin, n_arg, **kw).rfa()
     except Exception as e:
